@@ -54,6 +54,8 @@ type SpecKnobs struct {
 	Epochs             int    // planned chain length in epochs: fork epochs are drawn so that they fall inside
 	PlainMinimal       bool   // minimal preset untouched except fork epochs
 	AllForksInside     bool   // force all four fork epochs < Epochs-1
+	CommitteeDrop      bool   // MAX_COMMITTEES_PER_SLOT 4, MAX_SEED_LOOKAHEAD 1: with an exact genesis active count the committee count drops inside phase0
+	Phase0Leak         bool   // MIN_EPOCHS_TO_INACTIVITY_PENALTY 1 (a leak epoch is processed by phase0 when altair comes at epoch 4)
 	WideForks          bool   // fork epochs anywhere in 1..epochs-4 instead of 1..6
 	ForkBias           string // "late": forks at the last four possible epochs; "early": 1,2,3,4
 	OddVectors         bool   // non-power-of-two EPOCHS_PER_HISTORICAL_VECTOR / EPOCHS_PER_SLASHINGS_VECTOR / SLOTS_PER_HISTORICAL_ROOT
@@ -102,6 +104,10 @@ func ForkSchedule(r *hx.Rng, k SpecKnobs) [4]uint64 {
 			return [4]uint64{1, 1, 1, 3}
 		}
 		return [4]uint64{1, 2, 2, 2}
+	}
+	if k.ForkBias == "phase0long" && k.Epochs >= 9 {
+		// four phase0 epochs, altair at a multiple of both possible sync-committee periods (2 and 4)
+		return [4]uint64{4, 5, 6, 7}
 	}
 	if k.ForkBias == "late" && hi >= 5 {
 		return [4]uint64{uint64(hi - 3), uint64(hi - 2), uint64(hi - 1), uint64(hi)}
@@ -225,6 +231,16 @@ func TinySpec(r *hx.Rng, k SpecKnobs) *common.Spec {
 	if k.FastEth1 {
 		sp.EPOCHS_PER_ETH1_VOTING_PERIOD = 1
 	}
+	if k.CommitteeDrop {
+		sp.MAX_COMMITTEES_PER_SLOT = 4
+		sp.MAX_SEED_LOOKAHEAD = 1
+		if uint64(sp.SLOTS_PER_EPOCH)*uint64(sp.TARGET_COMMITTEE_SIZE) < 16 {
+			sp.TARGET_COMMITTEE_SIZE = 4
+		}
+	}
+	if k.Phase0Leak {
+		sp.MIN_EPOCHS_TO_INACTIVITY_PENALTY = 1
+	}
 	if k.ForkBias == "late" && sp.MAX_SEED_LOOKAHEAD > 2 {
 		// an exit initiated in phase0 can then take effect exactly at ALTAIR_FORK_EPOCH+1
 		sp.MAX_SEED_LOOKAHEAD = common.Epoch(pick(r, 1, 2))
@@ -265,7 +281,7 @@ func TinySpec(r *hx.Rng, k SpecKnobs) *common.Spec {
 		p := uint64(sp.EPOCHS_PER_SYNC_COMMITTEE_PERIOD)
 		fe := []*common.Epoch{&sp.ALTAIR_FORK_EPOCH, &sp.BELLATRIX_FORK_EPOCH, &sp.CAPELLA_FORK_EPOCH, &sp.DENEB_FORK_EPOCH}
 		// make the second reachable fork land on a period boundary
-		idx := 1 + r.Intn(3)
+		idx := r.Intn(4)
 		if uint64(*fe[idx]) != FarFuture {
 			v := (uint64(*fe[idx]) + p - 1) / p * p
 			if v == 0 {
